@@ -1,6 +1,6 @@
 (* Property C16 — charged cost = given cost (or Coster value) + internal overhead.
    Only statements here; proofs are in CacheLocal.v. *)
-From StrettoModel Require Import Base Metrics Policy PolicyProofs Ttl Store Cache CacheProofs CacheLocal.
+From StrettoModel Require Import Base Metrics Policy PolicyProofs Ttl Store Cache CacheProofs CacheLocal PolicyVictims CacheInv CacheAgree CacheVictims.
 Open Scope N_scope.
 
 (* For every explicit cost, every Coster, every value: the item a plain insert of a non-resident key
@@ -48,3 +48,30 @@ Theorem C16_sweep_reports_charged_cost :
     sl_used (s_slfu st') = (sl_used (s_slfu st) - charge)%Z.
 Proof. exact sweep_reports_charged_cost. Qed.
 Print Assumptions C16_sweep_reports_charged_cost.
+
+(* The cost reported to on_evict for a policy victim equals the cost the victim was charged (proofs
+   in PolicyVictims.v, CacheVictims.v): every victim pair the policy returns — whatever the sample
+   order, however many refills — carries the charge the key had when the add began ... *)
+Theorem C16_victims_report_their_charge :
+  forall est oracle s k cost s' V a lg m,
+  WF s -> (forall x, (est x < I64MAX)%Z) -> pol_add est oracle s k cost = AddDone s' (Some V) a lg m ->
+  forall kv c, In (kv, c) V -> aget kv (sl_kc s) = Some c.
+Proof. exact victims_report_their_charge. Qed.
+Print Assumptions C16_victims_report_their_charge.
+
+(* ... the processor keeps exactly those pairs ... *)
+Theorem C16_admission_victims_carry_their_charges :
+  forall c st h k cf cost v exp r st' o vs added cost',
+  s_pc st = PIdle -> h_arm h = Some ArmItem -> s_buf st = INew k cf cost v exp :: r -> WF (s_slfu st) ->
+  proc_step c st h = StepOk st' o -> s_pc st' = PNewAfterAdd k cf v exp cost' vs added ->
+  forall kv cv, In (kv, cv) vs -> aget kv (sl_kc (s_slfu st)) = Some cv.
+Proof. exact admission_victims_carry_their_charges. Qed.
+Print Assumptions C16_admission_victims_carry_their_charges.
+
+(* ... and the eviction step reports the pair's cost to on_evict. *)
+Theorem C16_victim_eviction_reports_that_cost :
+  forall c st h vk vc rest st' o,
+  s_pc st = PNewVictim (vk, vc) rest -> proc_step c st h = StepOk st' o ->
+  forall k cf v cost, In (CbEvict k cf v cost) (o_cbs o) -> k = vk /\ cost = vc.
+Proof. exact victim_eviction_reports_that_cost. Qed.
+Print Assumptions C16_victim_eviction_reports_that_cost.
